@@ -46,3 +46,23 @@ Theorem C03_positions_use_covered_literals :
      end).
 Proof. intros b p k. destruct p, k; cbn; tauto. Qed.
 Print Assumptions C03_positions_use_covered_literals.
+
+(* The Json arm and arrays of text elements (value_to_string_common): the Json literal decodes, under the
+   engine's string lexer, to the text the external formatter produced; the element list value_to_string writes
+   for an array of strings, read by the executable array oracle that checks the implementation's output
+   (Spec/LitArrayOracle.v), decodes to exactly the given strings - for every non-empty list of strings of any
+   length and content (NUL excluded where the engine has no representation for it). *)
+Require Import SQV.Model.Value SQV.Model.Writer SQV.Spec.LitArrayOracle SQV.Proofs.LitArrayProofs.
+Theorem C03_json_literal_roundtrip :
+  forall (ftext : bool -> N -> str) b oid text rest, nul_ok b text -> not_starting_with 39 rest ->
+  lex_string b (value_to_string ftext b (V TJson (Some (POpaque oid text))) ++ rest) = Some (text, rest).
+Proof. exact json_literal_roundtrip. Qed.
+Print Assumptions C03_json_literal_roundtrip.
+
+Theorem C03_string_array_roundtrip :
+  forall (ftext : bool -> N -> str) b (ss : list str) pre rest, ss <> [] -> Forall (nul_ok b) ss ->
+  decode_string_array_at b pre
+    (pre ++ value_to_string ftext b (VArray TString (Some (map (fun s => V TString (Some (PStr s))) ss))) ++ rest)
+  = Some (ss, 93 :: rest).
+Proof. exact string_array_value_roundtrip. Qed.
+Print Assumptions C03_string_array_roundtrip.
